@@ -291,7 +291,7 @@ def step_check(case):
         ok = ok and utils.falls(row, step=step, analog=True).tolist() == [a for a, p in zip(ni, npol) if p > 0]
         # a bipolar analog line (values -1, 0, 1) with a negative and a positive threshold
         row2 = row - 1.0
-        for T in (-0.5, 0.5):
+        for T in (-0.5, 0.5, 0, 0.0, np.float32(0)):
             up = [1.0 if x > T else 0.0 for x in row2]
             ui, upol = _ref_fronts(up, 1)
             dn = [1.0 if x < T else 0.0 for x in row2]
